@@ -220,7 +220,11 @@ fn hmc_case(rep: &mut Report, case: u64, g: &mut Sm64) {
     let n_chains = g.range(2, 64);
     let dim = g.range(1, 4);
     let seeded = g.chance(0.6);
-    let seed = g.next_u64();
+    let seed = match g.below(6) {
+        0 => u64::MAX,
+        1 => 0,
+        _ => g.next_u64(),
+    };
     let x0: Vec<f64> = (0..dim).map(|_| g.normal() * 0.3).collect();
     let cj = json!({"sampler": "HMC", "n_chains": n_chains, "dim": dim, "seeded": seeded, "seed": seed});
     rep.eval();
@@ -283,8 +287,12 @@ fn nuts_case(rep: &mut Report, case: u64, g: &mut Sm64) {
     let n_chains = g.range(2, 12);
     let dim = g.range(1, 3);
     let seeded = g.chance(0.6);
-    let seed = match g.below(4) {
+    let k = g.below(n_chains + 2) as u64;
+    let seed = match g.below(8) {
         0 => 0,
+        1 => u64::MAX.wrapping_sub(k),
+        2 => u64::MAX,
+        3 => (1u64 << 63).wrapping_sub(1).wrapping_sub(k),
         _ => g.next_u64() >> 1,
     };
     let x0: Vec<f64> = (0..dim).map(|_| g.normal() * 0.3).collect();
